@@ -1,18 +1,7 @@
 open Model
 open Sx
 
-let cop_of = function
-  | "<=" -> CLe | ">=" -> CGe | "<" -> CLt | ">" -> CGt | "==" -> CEq | "!=" -> CNe
-  | s -> raise (Bad ("operator " ^ s))
-let pbop_of = function
-  | "<=" -> PLe | ">=" -> PGe | "<" -> PLt | ">" -> PGt | "==" -> PEq
-  | s -> raise (Bad ("operator " ^ s))
-let pbop_str = function PLe -> "<=" | PGe -> ">=" | PLt -> "<" | PGt -> ">" | PEq -> "=="
-let of_pbc (c : pbc) = L [of_list (of_pair of_z of_z) c.pb_terms; Q (pbop_str c.pb_op); of_z c.pb_deg]
-let to_pbc = function
-  | L [ts; o; d] -> { pb_terms = to_list (to_pair to_z to_z) ts; pb_op = pbop_of (to_str o); pb_deg = to_z d }
-  | _ -> raise (Bad "pbc")
-let of_opb = of_list of_pbc
+open Sxlib_ir
 
 let () =
   register "add_linear" (function [ls; o; k] -> of_cnf (add_linear (to_zl ls) (cop_of (to_str o)) (to_z k)) | _ -> raise (Bad "arity"));
